@@ -3,7 +3,7 @@
    Server::handle_message on request bytes [req], reply capacity [cap], transport [k],
    with the filesystem answering [fr] (an arbitrary oracle value). *)
 From Coq Require Import List String NArith Bool.
-From FB Require Import Lib.Bytes Model.Server Proofs.ServerPerform Proofs.ServerReply Proofs.ServerDecide Proofs.ServerHandle.
+From FB Require Import Lib.Bytes Model.Server Spec.Requests Spec.WfReq Proofs.ServerPerform Proofs.ServerReply Proofs.ServerDecide Proofs.ServerHandle Proofs.ServerDecodeLib Proofs.ServerDecode.
 Import ListNotations.
 Local Open Scope N_scope.
 
@@ -40,6 +40,24 @@ Theorem C01_actions_wellformed : forall cfg req fr cap,
   fs_ok fr -> action_wf (snd (fst (decide cfg req fr cap))).
 Proof. exact decide_action_wf. Qed.
 
+(* every well-formed request of an opcode the protocol requires an answer for (all but FORGET,
+   BATCH_FORGET, INTERRUPT, NOTIFY_REPLY) is answered, by exactly one complete message when the
+   reply fits the buffer; [wf_req]/[env_ok] are the boolean well-formedness predicates of Spec/WfReq.v,
+   [encode_req] lays the request out with the kernel struct tables *)
+Theorem C01_answer_required : forall cfg q fr cap du dg,
+  wf_req q = true -> cfg_remap cfg = RemapOk du dg -> env_ok cfg cap q = true ->
+  needs_answer (q_op q) = true ->
+  replies (snd (fst (decide cfg (encode_req q) fr cap))) = true.
+Proof. exact answer_required. Qed.
+
+Theorem C01_answer_exactly_one_message : forall cfg q fr cap du dg,
+  wf_req q = true -> cfg_remap cfg = RemapOk du dg -> env_ok cfg cap q = true ->
+  needs_answer (q_op q) = true -> cap < 2 ^ 32 -> fs_ok fr ->
+  action_size (snd (fst (decide cfg (encode_req q) fr cap))) <= cap ->
+  exists p, o_packets (h_outcome (handle cfg FuseDev cap (encode_req q) fr)) = [p]
+            /\ wellformed_reply (q_unique q) p.
+Proof. exact answer_one_wellformed_packet. Qed.
+
 (* non-vacuity: the hypotheses are satisfiable and replies do occur *)
 Example C01_nonvacuous :
   fs_ok (FErr (Os 2)) /\
@@ -53,3 +71,5 @@ Print Assumptions C01_virtio_never_writes_fd.
 Print Assumptions C01_reply_wellformed.
 Print Assumptions C01_forget_silent.
 Print Assumptions C01_actions_wellformed.
+Print Assumptions C01_answer_required.
+Print Assumptions C01_answer_exactly_one_message.
